@@ -61,7 +61,7 @@ type h struct {
 func (*h) Rule() string {
 	return "a case = one writer life (fs or in-memory directory, safe or unsafe batches, merge-plan options that merge at 2-3 segments, " +
 		"optionally close + reopen on the same directory): 8-20 batches of 1-4 updates/deletes over 12 colliding ids, readers opened at random " +
-		"points (at most 4 held, also OpenReader from disk) and closed at random points; after every batch a full re-query of all held readers " +
+		"points (at most 4 held, also OpenReader from disk) and closed at random points; 7% of the batches meet one injected transient failure of the next segment Persist; after every batch a full re-query of all held readers " +
 		"(`check`, concurrent with persister/merger) and/or a quiescent `settle` (reference counts and closers compared) are drawn; always re-queried " +
 		"after writer Close and after reopen. An evaluation is one full re-query of one held reader; it is non-trivial when the reader's snapshot is " +
 		"no longer the writer's root (segments superseded, merged away or files removed since it was opened)"
@@ -83,7 +83,7 @@ func (*h) Gen(r *hlib.Rand, tier string, scale int, emit func(string)) {
 	// directed second case: every kind of step at least once whatever the seed (reader from the writer, reader from
 	// disk, merge, close, reopen on the same directory = loadSnapshot, queries after each of them)
 	for _, l := range []string{"case d1 dir=fs unsafe=0 tier=1 task=2 growth=20 minmem=2", "wopen", "batch u0:1,u1:2", "batch u2:3,d0",
-		"open", "batch u3:4", "openfs", "batch u1:9", "check", "settle", "wclose", "check", "reopen", "check", "batch u4:5,d2", "settle",
+		"open", "batchf u3:4", "settle", "openfs", "batch u1:9", "check", "settle", "wclose", "check", "reopen", "check", "batch u4:5,d2", "settle",
 		"check", "wclose", "check", "close 0", "settle", "close 1", "end"} {
 		emit(l)
 	}
@@ -131,7 +131,11 @@ func (*h) Gen(r *hlib.Rand, tier string, scale int, emit func(string)) {
 						ops = append(ops, fmt.Sprintf("u%d:%d", id, r.Intn(1000)))
 					}
 				}
-				emit("batch " + strings.Join(ops, ","))
+				if r.Chance(7) {
+					emit("batchf " + strings.Join(ops, ",")) // the next segment Persist fails once
+				} else {
+					emit("batch " + strings.Join(ops, ","))
+				}
 				if r.Chance(45) {
 					emit("check")
 				}
@@ -336,6 +340,8 @@ type dirStats struct {
 	double        int
 	removed       int
 	blocked       int
+	failPersist   int // armed transient failures of the next segment Persist calls (writer side)
+	failed        int // injected failures delivered
 }
 
 type recDir struct {
@@ -382,6 +388,25 @@ func (d *recDir) Load(kind string, id uint64) (*segment.Data, io.Closer, error) 
 	d.st.loads++
 	d.st.mu.Unlock()
 	return data, &countCloser{inner: closer, key: key, st: d.st}, nil
+}
+
+// Persist delivers an armed transient failure instead of writing a segment (persister: persistSnapshotDirect /
+// in-memory merge; merger: file merge), so that the error paths of the loops (release of the grabbed
+// snapshot, retry) are part of the histories.
+func (d *recDir) Persist(kind string, id uint64, w index.WriterTo, closeCh chan struct{}) error {
+	if d.writer && kind == index.ItemKindSegment {
+		d.st.mu.Lock()
+		inject := d.st.failPersist > 0
+		if inject {
+			d.st.failPersist--
+			d.st.failed++
+		}
+		d.st.mu.Unlock()
+		if inject {
+			return fmt.Errorf("injected transient persist failure")
+		}
+	}
+	return d.Directory.Persist(kind, id, w, closeCh)
 }
 
 func (d *recDir) Remove(kind string, id uint64) error {
@@ -1048,10 +1073,17 @@ func (c *child) do(line string) {
 		c.pair("wopen "+name, res)
 		c.emitEvents(nil)
 		c.stat("op:"+w[0], 1)
-	case "batch":
+	case "batch", "batchf":
 		if !c.wopen || len(w) < 2 {
 			c.pair(line, "na")
 			return
+		}
+		failedBefore := 0
+		if w[0] == "batchf" {
+			c.ds.mu.Lock()
+			c.ds.failPersist = 1
+			failedBefore = c.ds.failed
+			c.ds.mu.Unlock()
 		}
 		b := bluge.NewBatch()
 		for _, op := range strings.Split(w[1], ",") {
@@ -1072,10 +1104,15 @@ func (c *child) do(line string) {
 		res := "ok"
 		if err := c.writer.Batch(b); err != nil {
 			res = "err"
+			c.ds.mu.Lock()
+			if w[0] == "batchf" && c.ds.failed > failedBefore {
+				res = "err:persist" // applied (it is in the root), its first persist attempt failed, the persister retries
+			}
+			c.ds.mu.Unlock()
 		}
 		c.emitEvents(nil)
 		c.pair(line, res)
-		c.stat("op:batch", 1)
+		c.stat("op:"+w[0], 1)
 	case "open", "sopen":
 		if w[0] == "sopen" && c.wopen {
 			c.settle()
